@@ -667,7 +667,9 @@ func (c *Context) Cbrt(d, x *Decimal) (Condition, error) {
 	res, err := c.goError(res)
 	d.Negative = neg
 
-	// Set z = d^3 to check for exactness.
+	// Set z = d^3 to check for exactness. The cube has up to three times as
+	// many digits as d, so it must be computed without rounding.
+	nc.Precision = 0
 	ed.Mul(&z, d, d)
 	ed.Mul(&z, &z, d)
 
